@@ -275,6 +275,7 @@ func compile(h *History, strong bool) (*compiled, error) {
 		return c.nHnd - 1
 	}
 	lastUse := map[int]*cop{}
+	uses := map[int][]*cop{} // every operation on a GetLeaf handle
 	// program order = order of Call inside one goroutine; process in Call order
 	order := make([]int, len(h.Ops))
 	for i := range order {
@@ -319,6 +320,7 @@ func compile(h *History, strong bool) (*compiled, error) {
 			}
 			co := &cop{kind: kBind, src: i, p: c.pid(o.Path), h: hx, node: node, lastUse: true}
 			lastUse[hx] = co
+			uses[hx] = append(uses[hx], co)
 			c.ops = append(c.ops, co)
 		case "hval", "hupd":
 			hx, ok := hidx[o.H]
@@ -337,6 +339,7 @@ func compile(h *History, strong bool) (*compiled, error) {
 				co = &cop{kind: kUpd, src: i, h: hx, val: c.vid(o.Val), lastUse: true}
 			}
 			lastUse[hx] = co
+			uses[hx] = append(uses[hx], co)
 			c.ops = append(c.ops, co)
 		case "del", "delcond":
 			co := &cop{kind: kDel, src: i, match: matchOf(o.Path), cond: o.Kind == "delcond"}
@@ -384,6 +387,17 @@ func compile(h *History, strong bool) (*compiled, error) {
 			c.ops = append(c.ops, co)
 		default:
 			return nil, fmt.Errorf("op %d: unknown kind %q", i, o.Kind)
+		}
+	}
+	// Retiring a handle with its last use keeps the state canonical. "Last" must
+	// hold in every legal order: when a handle is shared by several goroutines and
+	// another use did not return before the last-called one began, either may come
+	// last and the handle is simply never retired.
+	for hx, last := range lastUse {
+		for _, u := range uses[hx] {
+			if u != last && !(h.Ops[u.src].Ret < h.Ops[last.src].Call) {
+				last.lastUse = false
+			}
 		}
 	}
 	if c.nHnd+hDetached > 65000 || len(c.valOf) > 65000 {
